@@ -100,4 +100,89 @@ theorem header (buf0 : List (BitVec 8)) (p fl op : BitVec 8) (stream : Int) (len
     simp only [Nat.shiftRight_eq_div_pow]
     refine ⟨?_, ?_, ?_, ?_, ?_⟩ <;> apply byteOf_congr <;> omega
 
+/-! ### The framer's primitive writers (methods with the pointer receiver `f *framer`, translated as functions from
+  the receiver field `f.buf` they read to the field they assign): each appends the model's bytes to the buffer -/
+
+theorem wShort_mod (n : Nat) : wShort (n % 65536) = wShort n := by
+  unfold wShort
+  congr 1
+  · apply byteOf_congr; omega
+  · congr 1; apply byteOf_congr; omega
+
+theorem map_ofBitVec_toBitVec (s : List UInt8) : (s.map (·.toBitVec)).map UInt8.ofBitVec = s := by
+  induction s with
+  | nil => rfl
+  | cons a s ih => simp [ih]
+
+/-- `appendShort` for every uint16 -/
+theorem appendShort16 (p : List (BitVec 8)) (v : BitVec 16) :
+    (Gen.Frame.appendShort p v).map UInt8.ofBitVec = p.map UInt8.ofBitVec ++ wShort v.toNat := by
+  have := appendShort p v.toNat v.isLt
+  simpa using this
+
+theorem writeByte (buf : List (BitVec 8)) (b : BitVec 8) :
+    (Gen.Frame.framer_writeByte buf b).map UInt8.ofBitVec = buf.map UInt8.ofBitVec ++ [UInt8.ofBitVec b] := by
+  simp [Gen.Frame.framer_writeByte]
+
+theorem writeShort (buf : List (BitVec 8)) (v : BitVec 16) :
+    (Gen.Frame.framer_writeShort buf v).map UInt8.ofBitVec = buf.map UInt8.ofBitVec ++ wShort v.toNat :=
+  appendShort16 buf v
+
+theorem writeConsistency (buf : List (BitVec 8)) (v : BitVec 16) :
+    (Gen.Frame.framer_writeConsistency buf v).map UInt8.ofBitVec = buf.map UInt8.ofBitVec ++ wShort v.toNat :=
+  appendShort16 buf v
+
+theorem writeInt (buf : List (BitVec 8)) (z : Int) :
+    (Gen.Frame.framer_writeInt buf (BitVec.ofInt 32 z)).map UInt8.ofBitVec = buf.map UInt8.ofBitVec ++ wInt z :=
+  appendInt buf z
+
+theorem writeUint (buf : List (BitVec 8)) (n : Nat) (h : n < 4294967296) :
+    (Gen.Frame.framer_writeUint buf (BitVec.ofNat 32 n)).map UInt8.ofBitVec = buf.map UInt8.ofBitVec ++ wUInt n :=
+  appendUint buf n h
+
+theorem writeLong (buf : List (BitVec 8)) (z : Int) :
+    (Gen.Frame.framer_writeLong buf (BitVec.ofInt 64 z)).map UInt8.ofBitVec = buf.map UInt8.ofBitVec ++ wLong z :=
+  appendLong buf z
+
+theorem writeUnset (buf : List (BitVec 8)) :
+    (Gen.Frame.framer_writeUnset buf).map UInt8.ofBitVec = buf.map UInt8.ofBitVec ++ wInt (-2) := by
+  have e : (0xfffffffe#32 : BitVec 32) = BitVec.ofInt 32 (-2) := by decide
+  unfold Gen.Frame.framer_writeUnset
+  simp only [e, writeInt]
+
+theorem len16 (n : Nat) : ((BitVec.ofNat 64 n).setWidth 16).toNat = n % 65536 := by
+  simp
+
+theorem len32 (n : Nat) : (BitVec.ofNat 64 n).setWidth 32 = BitVec.ofInt 32 (n : Int) := by
+  apply BitVec.eq_of_toNat_eq
+  simp
+
+/-- `writeString(s)`: `uint16(len(s))` (truncating) then all the bytes -/
+theorem writeString (buf : List (BitVec 8)) (s : List UInt8) :
+    (Gen.Frame.framer_writeString buf (s.map (·.toBitVec))).map UInt8.ofBitVec = buf.map UInt8.ofBitVec ++ wString s := by
+  unfold Gen.Frame.framer_writeString wString
+  simp only [List.map_append, writeShort, List.length_map, len16, wShort_mod, map_ofBitVec_toBitVec, List.append_assoc]
+
+theorem writeShortBytes (buf : List (BitVec 8)) (s : List UInt8) :
+    (Gen.Frame.framer_writeShortBytes buf (s.map (·.toBitVec))).map UInt8.ofBitVec = buf.map UInt8.ofBitVec ++ wString s := by
+  unfold Gen.Frame.framer_writeShortBytes wString
+  simp only [List.map_append, writeShort, List.length_map, len16, wShort_mod, map_ofBitVec_toBitVec, List.append_assoc]
+
+theorem writeLongString (buf : List (BitVec 8)) (s : List UInt8) :
+    (Gen.Frame.framer_writeLongString buf (s.map (·.toBitVec))).map UInt8.ofBitVec = buf.map UInt8.ofBitVec ++ wLongString s := by
+  unfold Gen.Frame.framer_writeLongString wLongString
+  simp only [List.map_append, List.length_map, len32, writeInt, map_ofBitVec_toBitVec, List.append_assoc]
+
+/-- the two arms of `writeBytes` (`p == nil` is not translated: a nil slice and an empty one are the same list) -/
+theorem writeBytes_nil (buf : List (BitVec 8)) :
+    (Gen.Frame.writeBytesNil buf).map UInt8.ofBitVec = buf.map UInt8.ofBitVec ++ wBytes none := by
+  have e : (0xffffffff#32 : BitVec 32) = BitVec.ofInt 32 (-1) := by decide
+  unfold Gen.Frame.writeBytesNil wBytes
+  simp only [e, writeInt]
+
+theorem writeBytes_some (buf : List (BitVec 8)) (p : List UInt8) :
+    (Gen.Frame.writeBytesSome buf (p.map (·.toBitVec))).map UInt8.ofBitVec = buf.map UInt8.ofBitVec ++ wBytes (some p) := by
+  unfold Gen.Frame.writeBytesSome wBytes
+  simp only [List.map_append, List.length_map, len32, writeInt, map_ofBitVec_toBitVec, List.append_assoc]
+
 end GenTie.Frame
